@@ -49,6 +49,7 @@ def run(ctx):
     ctx.do(rule_detector_reads_registries)
     ctx.do(rule_reference_shape_by_name)
     ctx.do(rule_reference_names_agree)
+    ctx.do(rule_property_table_is_a_copy)
     ctx.do(rule_lookups_name_their_category)
     from .C02 import rule_definition_of_named_type
     ctx.do(rule_definition_of_named_type, rule_id="C19.builtin-parity")
@@ -781,3 +782,30 @@ def rule_reference_names_agree(ctx):
                       w1 if w1 is not None else w2, "the registration" if w1 is not None else "the constructor", kind),
                   file=reg.module.relpath, line=xa.lineno, function=reg.qualname, expected="one classifier: name.endswith('_%s')" % kind,
                   found="registration: /%s/  constructor: /%s/" % (pa, pb))
+
+
+def rule_property_table_is_a_copy(ctx):
+    """What is registered is the property table as it was AT registration: _get_properties_dict hands every builder a mapping of
+    its own (OrderedDict(properties)).  Returning the caller's dictionary itself makes the registered class alias it -- extending
+    that dictionary afterwards (to register the richer variant for the other version, say) changes the earlier registration,
+    past the name checks."""
+    run = ctx.run
+    prog = ctx.prog
+    R = "C19.validation-before-write"
+    fi = prog.func("stix2.custom::_get_properties_dict")
+    rel = fi.module.relpath
+    par = fi.params[0]
+    bad = []
+    rets = [r for r in body_walk(fi.node) if isinstance(r, ast.Return) and r.value is not None]
+    for r in rets:
+        v = r.value
+        fresh = isinstance(v, ast.Call) and call_simple_name(v) in ("OrderedDict", "dict", "deepcopy", "copy") or isinstance(v, (ast.Dict, ast.DictComp))
+        if not fresh:
+            bad.append(r)
+    if not rets:
+        raise AnalysisError("_get_properties_dict: no return found")
+    run.check(not bad, R, key(rel, fi.qualname, "table-is-a-copy"),
+              "the property table handed to the class builders can be the caller's own dictionary (%s): the registered class aliases "
+              "it, so a later change of that dictionary changes the registration -- for the version it was made for, without any "
+              "validation" % par, file=rel, line=bad[0].lineno if bad else fi.node.lineno, function=fi.qualname,
+              expected="return OrderedDict(%s)" % par, found=[short(r) for r in bad])
